@@ -72,6 +72,8 @@ func propC06(c *Ctx) string {
 	c04Table(c, "C06/MATCH", "topic.(*Tree).match", matchRef, map[string]bool{"segment=+": true, "segment=#": true})
 	c04Seg(c, "C06/SEG")
 	c05Prune(c, "C06/PRUNE")
+	// the filters the backend stores are the filters the client asked for (no normalisation on the way)
+	c20Suback(c, v)
 	c.NotDecide("the exact recipient set at runtime for all histories", "topic/payload integrity end to end", "concurrent histories (only lock discipline, see C13/C15)",
 		"which of several matching subscriptions of one client grants the QoS (MatchFirst picks one, allowed by the statement)")
 	c.Assume("topic.Tree.Set replaces the value list (C05/ADDSET)", "instance-insensitive field keys")
